@@ -385,6 +385,7 @@ mod replay {
         boot_rx: Option<std::sync::mpsc::Receiver<Arc<shutdown::Manager>>>,
         bk: usize,  // start-up: listeners started
         bph: u8,    // start-up: what execute() does next for listener bk (0 count, 1 bind + listen, 2 spawn)
+        boot_shape: bool, // start-up: execute() reached the first point of the start-up program
         ports: Vec<u16>,
         lst: Vec<LSt>,
         clients: Vec<Client>,
@@ -514,6 +515,7 @@ mod replay {
                 boot_rx: None,
                 bk: 0,
                 bph: 0,
+                boot_shape: true,
                 ports,
             };
             run.bk = run.p.nl;
@@ -552,15 +554,17 @@ mod replay {
                 boot_rx: Some(rx),
                 bk: 0,
                 bph: 0,
+                boot_shape: true,
                 ports,
             };
-            if run.p.nl == 0 {
-                run.boot_returned(0).ok()?;
+            let ok = if run.p.nl == 0 {
+                run.boot_returned(0).is_ok()
             } else {
-                match run.ctl.at(Role::Exec, step_timeout()) {
-                    Some(("ex.bind", v)) if v == i64::from(run.ports[0]) => {}
-                    _ => return None,
-                }
+                matches!(run.ctl.at(Role::Exec, step_timeout()), Some(("ex.bind", v)) if v == i64::from(run.ports[0]))
+            };
+            if !ok {
+                // execute() does not come to the first point of the start-up program: not the program of the model
+                run.boot_shape = false;
             }
             Some(run)
         }
@@ -1203,8 +1207,11 @@ mod replay {
             let mut out = Vec::new();
             if let Some(bsched) = boot {
                 let mut bobs = Vec::new();
-                let mut fail = None;
+                let mut fail = if run.boot_shape { None } else { Some(Fail::Stalled(0)) };
                 for (n, lb) in bsched.iter().enumerate() {
+                    if fail.is_some() {
+                        break;
+                    }
                     match run.bexec(*lb, n) {
                         Ok(()) => bobs.push(run.bobs()),
                         Err(f) => {
